@@ -74,7 +74,7 @@ void operator delete[](void *p, std::size_t) noexcept { ::operator delete(p); }
 
 using namespace cocls;
 
-constexpr long NF = 8, NM = 4, NG = 4, NS = 4, NH = 6, NC = 32;
+constexpr long NF = 8, NM = 4, NG = 4, NS = 4, NH = 6, NC = 32, NK = 4;
 
 // ---- non-heap storage policy: frames live in a preallocated pool ----
 struct pool_storage {
@@ -111,8 +111,17 @@ struct MoveOnly {
     MoveOnly(const MoveOnly &) = delete;
     MoveOnly &operator=(const MoveOnly &) = delete;
 };
+// bulky payloads that do not allocate
+template <std::size_t N>
+struct Big {
+    int v;
+    char pad[N - sizeof(int)];
+};
+static_assert(sizeof(Big<264>) == 264 && sizeof(Big<1024>) == 1024);
 static long to_long(int &x) { return x; }
 static long to_long(MoveOnly &x) { return x.v; }
+template <std::size_t N>
+static long to_long(Big<N> &x) { return x.v; }
 
 struct Ctx;
 struct CbSlot : malleable_awaiter {
@@ -121,12 +130,31 @@ struct CbSlot : malleable_awaiter {
     bool busy = false;
 };
 
+// a consumer without a coroutine: the handler is a member function (call_fn_future_awaiter, future.h)
+struct CfObj {
+    Ctx *c = nullptr;
+    long idx = 0, rearm = 0;
+    int next_v = 0;
+    bool pending = false;
+    std::optional<promise<int>> pend;
+    suspend_point<void> on_value(future<int> &f) noexcept;
+    call_fn_future_awaiter<&CfObj::on_value> awt;
+    CfObj() : awt(*this) {}
+    void read_sync(long mode, int v);
+    void read_pending();
+};
+
 struct Ctx {
     bool coro = false, heap = true;
+    CfObj cf[NK];
     std::optional<future<int>> fi[NF];
     std::optional<future<void>> fv[NF];
     std::optional<future<int &>> fr[NF];
     std::optional<future<MoveOnly>> fm[NF];
+    std::optional<future<Big<264>>> fb[NF];
+    std::optional<future<Big<1024>>> fB[NF];
+    std::optional<promise<Big<264>>> pb[NF];
+    std::optional<promise<Big<1024>>> pB[NF];
     std::optional<promise<int>> pi[NF];
     std::optional<promise<void>> pv[NF];
     std::optional<promise<int &>> pr[NF];
@@ -155,6 +183,10 @@ struct Ctx {
             cbs[i].c = this;
             cbs[i].idx = i;
         }
+        for (long i = 0; i < NK; i++) {
+            cf[i].c = this;
+            cf[i].idx = i;
+        }
     }
     void log(long who, long out, long val) {
         am::quiet q;
@@ -168,7 +200,9 @@ static void with_fut(Ctx &c, long f, Fn &&fn) {
         case 0: fn(*c.fi[f], c.pi[f]); break;
         case 1: fn(*c.fv[f], c.pv[f]); break;
         case 2: fn(*c.fr[f], c.pr[f]); break;
-        default: fn(*c.fm[f], c.pm[f]); break;
+        case 3: fn(*c.fm[f], c.pm[f]); break;
+        case 4: fn(*c.fb[f], c.pb[f]); break;
+        default: fn(*c.fB[f], c.pB[f]); break;
     }
 }
 
@@ -184,6 +218,27 @@ static void read_future(future<T> &fut, long &out, long &val) {
     } catch (...) {
         out = 1;
     }
+}
+
+inline void CfObj::read_sync(long mode, int v) {
+    if (mode == 0) awt << [&] { return future<int>::set_value(v); };
+    else if (mode == 1) awt << [&] { return future<int>::set_exception(g_exc); };
+    else awt << [&] { return future<int>::set_not_value(); };
+}
+inline void CfObj::read_pending() {
+    pending = true;
+    awt << [&] { return future<int>([&](promise<int> p) { pend.emplace(std::move(p)); }); };
+}
+inline suspend_point<void> CfObj::on_value(future<int> &f) noexcept {
+    long out, val;
+    read_future(f, out, val);
+    c->log(3000 + idx, out, val);
+    pending = false;
+    if (rearm > 0) {   // the handler starts the next read itself; the source completes synchronously
+        rearm--;
+        read_sync(0, ++next_v);
+    }
+    return {};
 }
 
 // ---- the program's coroutines ----
@@ -253,6 +308,7 @@ struct Helper {
     std::atomic<int> cmd{0};     // 0 none, 1 run, 2 exit
     std::atomic<int> state{H_IDLE};
     std::atomic<long> tid{0};
+    std::atomic<int> ready{0};
     Ctx *c = nullptr;
     long kind = 0, obj = 0;
     bool has_ev = false;
@@ -271,6 +327,8 @@ static void helper_main(int t) {
     Helper &h = g_helpers[t];
     h.tid.store((long)syscall(SYS_gettid));
     coro_queue::install_queue_and_call([] {});   // thread-local queue warm-up
+    h.ready.store(1);
+    h.ready.notify_all();
     for (;;) {
         h.cmd.wait(0);
         int cmd = h.cmd.exchange(0);
@@ -428,7 +486,7 @@ static Step begin(Ctx &c, const std::vector<long> &op) {
     auto arity = [&](size_t k) { return op.size() == k; };
     switch (op[0]) {
         case 1: {  // FNew f ty
-            if (!arity(3) || !inr(op[1], NF) || !inr(op[2], 4) || c.fstate[op[1]] != 0) return rej();
+            if (!arity(3) || !inr(op[1], NF) || !inr(op[2], 6) || c.fstate[op[1]] != 0) return rej();
             long f = op[1];
             c.fty[f] = op[2];
             st.snap = am::snap();
@@ -436,7 +494,9 @@ static Step begin(Ctx &c, const std::vector<long> &op) {
                 case 0: c.fi[f].emplace(); break;
                 case 1: c.fv[f].emplace(); break;
                 case 2: c.fr[f].emplace(); break;
-                default: c.fm[f].emplace(); break;
+                case 3: c.fm[f].emplace(); break;
+                case 4: c.fb[f].emplace(); break;
+                default: c.fB[f].emplace(); break;
             }
             c.fstate[f] = 1;
             return st;
@@ -528,6 +588,11 @@ static Step begin(Ctx &c, const std::vector<long> &op) {
                             c.refstore[f] = (int)v;
                             return (*prom)(c.refstore[f]);
                         } else if constexpr (std::is_same_v<T, MoveOnly>) return (*prom)(MoveOnly((int)v));
+                        else if constexpr (std::is_class_v<T>) {
+                            T big{};
+                            big.v = (int)v;
+                            return (*prom)(big);
+                        }
                         else return (*prom)((int)v);
                     } else if (kind == 1) return prom->set_exception(g_exc);
                     else return (*prom)(drop);
@@ -552,6 +617,8 @@ static Step begin(Ctx &c, const std::vector<long> &op) {
             c.fv[f].reset();
             c.fr[f].reset();
             c.fm[f].reset();
+            c.fb[f].reset();
+            c.fB[f].reset();
             c.fstate[f] = 0;
             return st;
         }
@@ -691,6 +758,28 @@ static Step begin(Ctx &c, const std::vector<long> &op) {
             c.gkind[op[1]] = 0;
             return st;
         }
+        case 40: {  // CfStart k mode v r
+            if (!arity(5) || !inr(op[1], NK) || !inr(op[2], 4) || !inr(op[4], 6) || c.cf[op[1]].pending) return rej();
+            CfObj &o = c.cf[op[1]];
+            st.snap = am::snap();
+            o.rearm = op[4];
+            o.next_v = (int)op[3];
+            if (op[2] == 3) o.read_pending();
+            else o.read_sync(op[2], (int)op[3]);
+            return st;
+        }
+        case 41: {  // CfResolve k kind v
+            if (!arity(4) || !inr(op[1], NK) || !inr(op[2], 3) || !c.cf[op[1]].pending) return rej();
+            CfObj &o = c.cf[op[1]];
+            st.snap = am::snap();
+            o.next_v = (int)op[3];
+            st.res = 1;
+            if (op[2] == 0) (*o.pend)((int)op[3]);
+            else if (op[2] == 1) o.pend->set_exception(g_exc);
+            else (*o.pend)(drop);
+            o.pend.reset();
+            return st;
+        }
         case 30: {  // SpFlush s how
             if (!arity(3) || !inr(op[1], NS) || !(op[2] == 0 || (op[2] == 1 && c.coro))) return rej();
             long s = op[1];
@@ -725,6 +814,12 @@ static bool cleanup_round(Ctx &c) {
             c.fstate[f] = 3;
             changed = true;
         }
+    for (long k = 0; k < NK; k++)
+        if (c.cf[k].pending) {
+            c.cf[k].rearm = 0;
+            c.cf[k].pend.reset();
+            changed = true;
+        }
     for (long s = 0; s < NS; s++)
         if (!c.slots[s].empty()) {
             c.slots[s].clear();
@@ -743,6 +838,8 @@ static void cleanup_final(Ctx &c) {
         c.fv[f].reset();
         c.fr[f].reset();
         c.fm[f].reset();
+        c.fb[f].reset();
+        c.fB[f].reset();
     }
     am::quiet q;
     c.events.clear();
@@ -792,6 +889,7 @@ int main(int argc, char **argv) {
     // warm-up: touch the thread-local ready queue (libstdc++ deque constructor allocates) and start the helper threads
     coro_queue::install_queue_and_call([] {});
     for (int t = 0; t < NH; t++) g_helpers[t].th = std::thread(helper_main, t);
+    for (int t = 0; t < NH; t++) g_helpers[t].ready.wait(0);   // their warm-up allocations must not fall into a measured step
     auto cases = vh::read_cases(argv[1]);
     for (auto &cs : cases) {
         std::printf("CASE %s\n", cs.name.c_str());
